@@ -20,6 +20,7 @@ def run(tier, seed, work):
     quick = tier == "quick"
     mc = [("MC_Locking.tla", "MC_Locking_base.cfg" if quick else "MC_Locking_C11_thorough.cfg")]
     big = [("c13_big_%d" % j, ["rewardbig", "-n", 4 if quick else 30, "-depth", 40, "-seed", seed * 1000 + 500 + j]) for j in range(4)]
-    groups = lc.groups("C13", seed + 2, quick) + [("Trace_RewardBig.tla", "Trace_RewardBig_C13.cfg", big)]
+    # "exodus" histories end with every validator (the bedrock one included) withdrawing everything in one block
+    groups = lc.groups("C13", seed + 2, quick, modes=("", "exodus")) + [("Trace_RewardBig.tla", "Trace_RewardBig_C13.cfg", big)]
     return verif.run_stateful_check("C13", tier, seed, work, mc_list=mc, groups=groups, key_fn=bigkey,
                                     level="model_checking", assumptions=lc.COMMON_ASSUME, rule=RULE)
